@@ -14,6 +14,8 @@ package asn
 // verif_forall_range is a bounded quantifier and is executable, so that the replay harness can
 // evaluate post-conditions on the real function's results.
 func verif_forall[T any](f func(T) bool) bool { return true }
+// verif_disjoint: the element windows of the two slices do not overlap (interpreted by govc)
+func verif_disjoint(a, b []byte) bool { return true }
 func verif_forall_range(lo, hi int, f func(int) bool) bool {
 	for k := lo; k < hi; k++ {
 		if !f(k) {
@@ -260,8 +262,78 @@ func specBE(bytes []byte, n int) int64 {
 //@ func parseBitString [C05 C16]
 //@   strict
 //@   ensures (e == nil) == (len(bytes) > 0)
+//@   ensures len(bytes) > 0 ==> r.BitLength == uint64((len(bytes)-1)*8 - int(bytes[0])) && len(r.Bytes) == len(bytes)-1
+//@   ensures forall k int :: 0 <= k && k < len(bytes)-1 ==> r.Bytes[k] == bytes[1+k]
 
 //@ func parseTagAndLength [C05 C16]
 //@   strict
 //@   ensures e == nil ==> 2 <= off && off <= len(bytes) && r.len >= 0
 //@   loop 0: invariant 1 <= off && off <= len(bytes)
+
+// ---- BIT STRING ----------------------------------------------------------------------
+
+// specUnusedBits: X.690 8.6.2.2 - number of unused bits in the final octet, 0..7
+func specUnusedBits(bitLen uint64) byte { return byte((8 - bitLen%8) % 8) }
+
+// specBitStringOK: the value invariant of BitString - exactly the octets needed for BitLength bits
+func specBitStringOK(b BitString) bool {
+	return b.BitLength < 1<<40 && uint64(len(b.Bytes)) == (b.BitLength+7)/8
+}
+
+//@ func (bitStringEncoder).Len [C04]
+//@   ensures result == len(b.Bytes) + 1
+//@ func (bitStringEncoder).Encode [C04 C05]
+//@   requires len(dst) >= len(b.Bytes) + 1 && verif_disjoint(dst, b.Bytes)
+//@   ensures dst[0] == specUnusedBits(b.BitLength) && dst[0] <= 7
+//@   ensures forall k int :: 0 <= k && k < len(b.Bytes) ==> dst[1+k] == old(b.Bytes[k])
+//@   modifies elems(dst[:len(b.Bytes)+1])
+
+//@ func parseSignedInt64 [C05 C16]
+//@   strict
+//@   ensures len(bytes) > 8 ==> e != nil
+//@   ensures len(bytes) <= 8 ==> e == nil
+//@   ensures 0 < len(bytes) && len(bytes) <= 8 ==> r == specSigned(specBE(bytes, len(bytes)), len(bytes), bytes[0])
+
+// specSigned: two's-complement value of an n-octet big-endian number whose first octet is b0
+func specSigned(u int64, n int, b0 byte) int64 {
+	if n < 8 && b0&0x80 != 0 {
+		return u | -1<<(8*uint(n))
+	}
+	return u
+}
+
+// ---- round-trip lemmas (C05): decoder composed with encoder through their contracts ------
+
+//@ lemma verifLemmaIntRoundTrip [C05]
+//@   ensures err == nil && r == i
+func verifLemmaIntRoundTrip(i int64) (r int64, err error) {
+	e := int64Encoder(i)
+	dst := make([]byte, e.Len())
+	e.Encode(dst)
+	return parseSignedInt64(dst)
+}
+
+//@ lemma verifLemmaBoolRoundTrip [C05]
+//@   ensures err == nil && r == v
+func verifLemmaBoolRoundTrip(v bool) (r bool, err error) {
+	var e byteEncoder
+	if v {
+		e = byteEncoder(0xff)
+	} else {
+		e = byteEncoder(0)
+	}
+	dst := make([]byte, e.Len())
+	e.Encode(dst)
+	return parseBool(dst[0])
+}
+
+//@ lemma verifLemmaBitStringRoundTrip [C05]
+//@   requires specBitStringOK(b)
+//@   ensures err == nil && r.BitLength == b.BitLength && len(r.Bytes) == len(b.Bytes)
+//@   ensures forall k int :: 0 <= k && k < len(b.Bytes) ==> r.Bytes[k] == b.Bytes[k]
+func verifLemmaBitStringRoundTrip(b BitString) (r BitString, err error) {
+	e := bitStringEncoder(b)
+	dst := make([]byte, e.Len())
+	e.Encode(dst)
+	return parseBitString(dst)
+}
